@@ -307,9 +307,10 @@ pub const A_GE_ADDSUB: u8 = 16; // P + Q, P - Q via cached, doubling
 pub const A_GE_DECODE: u8 = 17; // from_bytes(special / random) -> to_bytes
 pub const A_FE_SQUARE_DOUBLE: u8 = 18;
 pub const A_FE_COMPLEMENT: u8 = 19; // dst = from_bytes(p - value(src1)): an independent representation of -src1
+pub const A_FE_BITFLIP: u8 = 20; // dst = from_bytes(to_bytes(src1) with bit `arg` (0..254) flipped): unequal to src1 in exactly one bit
 const A_KINDS: &[&str] = &[
     "fe_load", "fe_add", "fe_sub", "fe_neg", "fe_mul", "fe_square", "fe_square_n", "fe_invert", "fe_pow25523", "fe_observe", "fe_eq", "sc_reduce", "sc_canonical", "sc_muladd", "ge_base",
-    "ge_double_scalarmult", "ge_addsub", "ge_decode", "fe_square_and_double", "fe_complement",
+    "ge_double_scalarmult", "ge_addsub", "ge_decode", "fe_square_and_double", "fe_complement", "fe_bitflip",
 ];
 
 /// p - v for a canonical little-endian v < p (harness arithmetic, only used to build inputs)
@@ -445,7 +446,19 @@ impl Scenario for ArithProg {
                         t.ops.push(Op::new(s1, A_FE_OBSERVE));
                     }
                 }
-                16 | 17 => t.ops.push(Op::new(0, A_FE_EQ).off(srcs)),
+                16 => t.ops.push(Op::new(0, A_FE_EQ).off(srcs)),
+                17 => {
+                    // a pair that differs in exactly one bit of its canonical value, compared both ways and observed
+                    if dst != s1 {
+                        t.ops.push(Op::new(dst, A_FE_BITFLIP).off(s1).arg(rng.below(255)));
+                        depth[dst as usize] = 0;
+                        t.ops.push(Op::new(0, A_FE_EQ).off(dst | (s1 << 3)));
+                        t.ops.push(Op::new(0, A_FE_EQ).off(s1 | (dst << 3)));
+                        t.ops.push(Op::new(dst, A_FE_OBSERVE));
+                    } else {
+                        t.ops.push(Op::new(0, A_FE_EQ).off(srcs));
+                    }
+                }
                 18 => {
                     t.ops.push(Op::new(dst, A_FE_LOAD).arg(rng.below(20)).seed(rng.data_seed()));
                     depth[dst as usize] = 0;
@@ -453,7 +466,7 @@ impl Scenario for ArithProg {
                 19 => t.ops.push(Op::new(0, A_SC_REDUCE).arg(rng.below(18)).seed(rng.data_seed())),
                 25 => t.ops.push(Op::new(0, A_SC_REDUCE).arg(16 + rng.below(2)).seed(rng.data_seed())),
                 20 => t.ops.push(Op::new(0, A_SC_CANONICAL).arg(rng.below(24)).seed(rng.data_seed())),
-                21 => t.ops.push(Op::new(0, A_SC_MULADD).arg(rng.below(1 << 12)).seed(rng.data_seed())),
+                21 => t.ops.push(Op::new(0, A_SC_MULADD).arg(rng.below(8)).seed(rng.data_seed())),
                 22 => t.ops.push(Op::new(0, A_GE_BASE).arg(rng.below(12)).seed(rng.data_seed())),
                 23 => t.ops.push(Op::new(0, A_GE_DOUBLE_SCALARMULT).arg(rng.below(1 << 12)).seed(rng.data_seed())),
                 24 => t.ops.push(Op::new(0, A_GE_ADDSUB).arg(rng.below(1 << 8)).seed(rng.data_seed())),
@@ -672,6 +685,19 @@ impl Scenario for ArithProg {
                         depth[dst] = 0;
                     })
                 }
+                A_FE_BITFLIP => {
+                    let x = regs[s1].clone();
+                    let bit = (op.arg % 255) as usize;
+                    guarded(|| {
+                        let mut b = x.to_bytes();
+                        b[bit / 8] ^= 1 << (bit % 8);
+                        Fe::from_bytes(&b)
+                    })
+                    .map(|f| {
+                        regs[dst] = f;
+                        depth[dst] = 0;
+                    })
+                }
                 A_FE_OBSERVE => {
                     let x = regs[dst].clone();
                     guarded(|| (x.to_bytes(), x.is_negative(), x.is_nonzero())).map(|(b, neg, nz)| {
@@ -707,7 +733,84 @@ impl Scenario for ArithProg {
                         }
                     })
                 }
-                A_SC_MULADD => continue, // scalar::muladd is crate-private; exercised through ed25519::signature in sigchannel
+                A_SC_MULADD => {
+                    // the multiply-add of signing, S = (h * a + r) mod L, through hook H5 with chosen operands. Operand domain
+                    // as in signing: h and r reduced (below L), a below 2^255. The sum h*a + r is steered next to multiples
+                    // of L and to limb boundaries, which hash-derived operands reach with probability 2^-28 or less.
+                    #[cfg(not(feature = "hooks"))]
+                    {
+                        obs.hit("skipped.hooks_unavailable");
+                        continue;
+                    }
+                    #[cfg(feature = "hooks")]
+                    {
+                        use crate::model::big;
+                        let sub256 = |x: &[u8; 32], y: &[u8; 32]| -> [u8; 32] {
+                            let mut out = [0u8; 32];
+                            let mut borrow = 0i16;
+                            for i in 0..32 {
+                                let mut t = x[i] as i16 - y[i] as i16 - borrow;
+                                if t < 0 {
+                                    t += 256;
+                                    borrow = 1;
+                                } else {
+                                    borrow = 0;
+                                }
+                                out[i] = t as u8;
+                            }
+                            out
+                        };
+                        let reduced = |seed: u64| -> [u8; 32] {
+                            let mut w = [0u8; 64];
+                            w[..32].copy_from_slice(&data(seed | 16, 32));
+                            big::mod_l(&w[..32])
+                        };
+                        let one = {
+                            let mut o = [0u8; 32];
+                            o[0] = 1;
+                            o
+                        };
+                        let (h, a, r): ([u8; 32], [u8; 32], [u8; 32]) = match op.arg % 8 {
+                            0 => (reduced(op.seed), special_scalar(8, op.seed ^ 5), reduced(op.seed ^ 9)),
+                            1 | 2 => {
+                                // h = 1: the sum is a + r; choose r so that a + r is a boundary value (base + 2^k - e, base in
+                                // {0, L, 2^252, 2L, 8L}) when that leaves r reduced, else fall back to random r
+                                let a = if op.arg % 8 == 1 { reduced(op.seed ^ 3) } else { special_scalar(8, op.seed ^ 3) };
+                                let target = big::boundary_scalar(op.seed >> 7);
+                                let r = sub256(&target, &a);
+                                let r = if big::lt_l(&r) && !big::lt_l(&sub256(&a, &target)) || big::lt_l(&r) { r } else { reduced(op.seed ^ 11) };
+                                (one, a, r)
+                            }
+                            3 => {
+                                // h * a is an exact small multiple of ... nothing: a = 0, the sum is r alone
+                                ([0u8; 32], reduced(op.seed), reduced(op.seed ^ 1))
+                            }
+                            4 => {
+                                // every operand at its maximum: L-1, 2^255-1, L-1
+                                let mut lm1 = big::L;
+                                lm1[0] -= 1;
+                                let mut amax = [0xffu8; 32];
+                                amax[31] = 0x7f;
+                                (lm1, amax, lm1)
+                            }
+                            5 => {
+                                // h = L-1 (= -1): the sum is r - a (mod L): with r = a + boundary the result is the boundary value
+                                let mut lm1 = big::L;
+                                lm1[0] -= 1;
+                                let a = reduced(op.seed ^ 3);
+                                (lm1, a, big::mod_l(&big::boundary_scalar(op.seed >> 7)))
+                            }
+                            6 => (big::mod_l(&big::boundary_scalar(op.seed >> 3)), big::boundary_scalar(op.seed >> 11), reduced(op.seed ^ 17)),
+                            _ => (special_scalar(op.seed % 12, op.seed), special_scalar((op.seed >> 4) % 12, op.seed ^ 1), special_scalar((op.seed >> 8) % 12, op.seed ^ 2)),
+                        };
+                        // keep to the operand domain of signing
+                        let h = if big::lt_l(&h) { h } else { big::mod_l(&h) };
+                        let r = if big::lt_l(&r) { r } else { big::mod_l(&r) };
+                        let mut a = a;
+                        a[31] &= 0x7f;
+                        guarded(|| cryptoxide::curve25519::scalar::verif_muladd(&Scalar::from_bytes(&h), &Scalar::from_bytes(&a), &Scalar::from_bytes(&r)).to_bytes()).map(|b| obs.out(&b))
+                    }
+                }
                 A_GE_BASE => {
                     let mut a = special_scalar(op.arg, op.seed);
                     // scalarmult_base documents its operand range as a[31] <= 0x80, i.e. up to 2^255 + 2^248 - 1:
